@@ -167,11 +167,9 @@ fn indexes_of(n: usize) -> Vec<usize> {
     v
 }
 
-/// one shape: node-vector lengths, number of indexes, number of leaves; depth 0..=3, index values
-/// (full usize: duplicates and out-of-range included) and every digest symbolic
-fn malformed_batch(shape: &[usize], n_idx: usize, n_leaves: usize) {
-    let depth = vs::any_u8();
-    vs::assume(depth <= 3);
+/// one shape: node-vector lengths, number of indexes, number of leaves, depth (all concrete); index
+/// values (full usize: duplicates and out-of-range included) and every digest symbolic
+fn malformed_batch(shape: &[usize], n_idx: usize, n_leaves: usize, depth: u8, openings: bool) {
     let proof: BatchMerkleProof<HM> = BatchMerkleProof { nodes: nodes_of(shape), depth };
     let idx = indexes_of(n_idx);
     let leaves = digests(n_leaves);
@@ -192,36 +190,40 @@ fn malformed_batch(shape: &[usize], n_idx: usize, n_leaves: usize) {
         vcheck!("C19.verify_batch.ok_implies_distinct_in_range", ok);
         vcheck!("C19.verify_batch.ok_implies_leaf_per_index", n_leaves >= n_idx);
     }
-    let _ = proof.into_openings(&leaves, &idx);
+    if openings {
+        let _ = proof.into_openings(&leaves, &idx);
+    }
 }
 
-//# harness: fn=BatchMerkleProof::get_root, MerkleTree::verify_batch, BatchMerkleProof::into_openings; label=bounded(shapes (nodes [], 1 index, 1 leaf) and (nodes [0], 1 index, 1 leaf); depth 0..=3; contents symbolic); tier=quick; uses=malformed_batch,nodes_of,digests,indexes_of; timeout=900
+//# harness: fn=BatchMerkleProof::get_root, MerkleTree::verify_batch; label=bounded(depth 2; shapes (nodes [1], 1 index, 0 leaves), (nodes [1], 1 index, 1 leaf), (nodes [0], 1 index, 1 leaf); index value and digests symbolic); tier=quick; uses=malformed_batch,nodes_of,digests,indexes_of; timeout=900
 #[cfg_attr(kani, kani::proof)]
 #[cfg_attr(kani, kani::unwind(12))]
 #[cfg_attr(kani, kani::stub(alloc::fmt::format, vs::fake_format))]
 pub fn k_c19_batch_malformed_a() {
-    malformed_batch(&[], 1, 1);
-    malformed_batch(&[0], 1, 1);
+    malformed_batch(&[1], 1, 0, 2, false);
+    malformed_batch(&[1], 1, 1, 2, false);
+    malformed_batch(&[0], 1, 1, 2, false);
     vreach!("C19.malformed_a.reach");
 }
 
-//# harness: fn=BatchMerkleProof::get_root, MerkleTree::verify_batch, BatchMerkleProof::into_openings; label=bounded(shapes (nodes [1], 1 index, 0 leaves) and (nodes [1], 1 index, 1 leaf); depth 0..=3; contents symbolic); tier=quick; uses=malformed_batch,nodes_of,digests,indexes_of; timeout=900
+//# harness: fn=BatchMerkleProof::get_root, MerkleTree::verify_batch; label=bounded(depth 1 and 3; shapes (nodes [], 1 index, 1 leaf), (nodes [2], 1 index, 1 leaf); index value and digests symbolic); tier=quick; uses=malformed_batch,nodes_of,digests,indexes_of; timeout=900
 #[cfg_attr(kani, kani::proof)]
 #[cfg_attr(kani, kani::unwind(12))]
 #[cfg_attr(kani, kani::stub(alloc::fmt::format, vs::fake_format))]
 pub fn k_c19_batch_malformed_b() {
-    malformed_batch(&[1], 1, 0);
-    malformed_batch(&[1], 1, 1);
+    malformed_batch(&[], 1, 1, 1, false);
+    malformed_batch(&[2], 1, 1, 3, false);
     vreach!("C19.malformed_b.reach");
 }
 
-//# harness: fn=BatchMerkleProof::get_root, MerkleTree::verify_batch, BatchMerkleProof::into_openings; label=bounded(shapes with 2 indexes: (nodes [2], 2 leaves), (nodes [0, 2], 1 leaf); depth 0..=3; contents symbolic); tier=thorough; uses=malformed_batch,nodes_of,digests,indexes_of; timeout=2400
+//# harness: fn=BatchMerkleProof::into_openings, get_root, verify_batch (two indexes); label=bounded(depth 2; shapes (nodes [1], 1 index, 1 leaf) with into_openings, (nodes [1, 1], 2 indexes, 2 leaves), (nodes [0, 2], 2 indexes, 1 leaf)); tier=thorough; uses=malformed_batch,nodes_of,digests,indexes_of; timeout=3000
 #[cfg_attr(kani, kani::proof)]
 #[cfg_attr(kani, kani::unwind(12))]
 #[cfg_attr(kani, kani::stub(alloc::fmt::format, vs::fake_format))]
 pub fn k_c19_batch_malformed_c() {
-    malformed_batch(&[2], 2, 2);
-    malformed_batch(&[0, 2], 2, 1);
+    malformed_batch(&[1], 1, 1, 2, true);
+    malformed_batch(&[1, 1], 2, 2, 2, false);
+    malformed_batch(&[0, 2], 2, 1, 2, false);
     vreach!("C19.malformed_c.reach");
 }
 
